@@ -203,6 +203,7 @@ package ctfe
 //@ ensures [error-never-200] li.instanceOpts.ErrorMapper == nil && result2 != nil ==> result1 != 200
 //@ ensures [fix-error-500] fix.called && fix.res != nil ==> result1 == 500 && result2 != nil && result0 == nil
 //@ ensures [caller-view] result2 == nil ==> result0 != nil && result1 == 200
+//@ ensures [every-served-leaf-went-through-the-chain-store] result2 == nil && after(rpc, rpc.res0.Leaf) != nil ==> fix.called && fix.res == nil
 //@ modifies nothing
 //@ note modifies nothing: writes only ExtraData of the leaf inside the freshly allocated reply
 //@ fresh result0
@@ -781,7 +782,7 @@ package ctfe
 // ---- C15: configuration validation ------------------------------------------------------------
 
 //@ func ValidateLogConfig
-//@ props C15
+//@ props C15 C18
 //@ modifies nothing
 //@ loop-frames
 //@ arith int
